@@ -186,9 +186,15 @@ pub fn dump_dir(root: &Path, prefix: &str, tr: Option<&TraceReader>) -> Vec<Stri
             let nm = match tr.and_then(|t| t.staging_names.get(n)) { Some(i) => format!("staging/#{i}"), None => format!("staging/#{}", n.trim_start_matches("planted")) };
             (nm, "staged".to_string())
         } else if let Some(rest) = rel.strip_prefix("cas/") {
-            (format!("cas/{}", rest.split('/').map(|c| printable(c.as_bytes())).collect::<Vec<_>>().join("/")), show_content(&data))
+            // the harness re-hashes every CAS file itself: does the content match the name?
+            let comps: Vec<&str> = rest.split('/').collect();
+            let joined: String = if comps.len() >= 3 { comps[comps.len() - 3..].concat() } else { String::new() };
+            let ok = joined.len() == 64 && joined.bytes().all(|c| c.is_ascii_hexdigit()) && joined.to_ascii_lowercase() == hex(blake3::hash(&data).as_bytes());
+            (format!("cas/{}", comps.iter().map(|c| printable(c.as_bytes())).collect::<Vec<_>>().join("/")), format!("{} hash={}", show_content(&data), if ok { "ok" } else { "BAD" }))
         } else { (rel.clone(), show_content(&data)) };
         lines.push(format!("{prefix}F {name} {body}"));
+        if rel.ends_with("_index.wal") { lines.push(format!("{prefix}L {rel} {}", crate::indep::wal_summary(&data))); }
+        if rel == "index" { lines.push(format!("{prefix}S index {}", crate::indep::snapshot_summary(&data))); }
     }
     lines.sort();
     lines
